@@ -55,16 +55,8 @@ mod __verif_c41 {
         }
     }
 
-    // @harness tiers=quick,thorough
-    // @encodes metastore::gravitino::dechunk
-    // @bounds body of exactly 3 symbolic bytes, split at a symbolic point into 1 or 2 chunks (empty first piece => one chunk), no chunk extensions, terminating `0 CRLF CRLF`
-    // @oracle dechunk(encode(body, split)) == Some(body)
-    #[kani::proof]
-    #[kani::unwind(8)]
-    fn roundtrip_two_chunks_no_extensions() {
+    fn roundtrip_case(cut: usize) {
         let body: [u8; 3] = kani::any();
-        let cut: usize = kani::any();
-        kani::assume(cut <= 3);
         let mut buf = [0u8; W];
         let mut n = 0usize;
         if cut > 0 {
@@ -75,9 +67,23 @@ mod __verif_c41 {
         }
         put(&mut buf, &mut n, b"0\r\n\r\n");
         let got = dechunk(&buf[..n]);
-        kani::cover!(got.is_some() && cut == 1);
+        kani::cover!(got.is_some());
         assert!(same(&got, &body), "C41.roundtrip");
         std::mem::forget(got);
+    }
+
+    // @harness tiers=quick,thorough
+    // @encodes metastore::gravitino::dechunk
+    // @bounds body of 3 symbolic bytes, split into 1 or 2 chunks at EVERY cut point 0..=3 (the cut is iterated concretely, the bytes are symbolic: CR, LF, digits, anything), no chunk extensions, terminating `0 CRLF CRLF`
+    // @oracle dechunk(encode(body, cut)) == Some(body)
+    // @out bodies longer than 3 bytes, more than 2 chunks, multi-digit chunk sizes other than the 16-digit case below
+    #[kani::proof]
+    #[kani::unwind(8)]
+    fn roundtrip_every_split_of_3_bytes() {
+        roundtrip_case(0);
+        roundtrip_case(1);
+        roundtrip_case(2);
+        roundtrip_case(3);
     }
 
     // @harness tiers=quick,thorough finding=C41-chunk-extension-rejected
@@ -93,20 +99,12 @@ mod __verif_c41 {
         put_chunk(&mut buf, &mut n, &body, true, false);
         put(&mut buf, &mut n, b"0\r\n\r\n");
         let got = dechunk(&buf[..n]);
-        kani::cover!(n == 12);
+        kani::cover!(n == 13);
         assert!(same(&got, &body), "C41.roundtrip_with_extension");
         std::mem::forget(got);
     }
 
-    // @harness tiers=quick,thorough
-    // @encodes metastore::gravitino::dechunk
-    // @bounds one chunk of 10..=15 bytes (concrete zero payload), size written as ONE hex digit in symbolic case (a..f / A..F)
-    // @oracle hex sizes decode in either case: the body has the declared length
-    #[kani::proof]
-    #[kani::unwind(18)]
-    fn hex_sizes_in_either_case() {
-        let len: usize = kani::any();
-        kani::assume(len >= 10 && len <= 15);
+    fn hex_case(len: usize) {
         let upper: bool = kani::any();
         let data = [0u8; 15];
         let mut buf = [0u8; W];
@@ -114,22 +112,24 @@ mod __verif_c41 {
         put_chunk(&mut buf, &mut n, &data[..len], false, upper);
         put(&mut buf, &mut n, b"0\r\n\r\n");
         let got = dechunk(&buf[..n]);
-        kani::cover!(upper && len == 12);
+        kani::cover!(upper);
         assert!(matches!(&got, Some(v) if v.len() == len), "C41.hex_case_insensitive");
         std::mem::forget(got);
     }
 
     // @harness tiers=quick,thorough
     // @encodes metastore::gravitino::dechunk
-    // @bounds declared size d in 1..=3 (symbolic) followed by FEWER than d + 2 bytes (symbolic shortfall), i.e. a body cut short anywhere inside the chunk or its CRLF
-    // @oracle truncated chunk data is rejected (None), never returned as a shorter body
+    // @bounds one chunk of 10, 12 or 15 bytes (concrete zero payload), size written as ONE hex digit in symbolic case (a/A, c/C, f/F)
+    // @oracle hex sizes decode in either case: the body has the declared length
     #[kani::proof]
-    #[kani::unwind(8)]
-    fn truncated_chunk_is_rejected() {
-        let d: usize = kani::any();
-        kani::assume(d >= 1 && d <= 3);
-        let have: usize = kani::any();
-        kani::assume(have < d + 2);
+    #[kani::unwind(18)]
+    fn hex_sizes_in_either_case() {
+        hex_case(10);
+        hex_case(12);
+        hex_case(15);
+    }
+
+    fn truncated_case(d: usize, have: usize) {
         let tail: [u8; 4] = kani::any();
         let mut buf = [0u8; W];
         let mut n = 0usize;
@@ -137,9 +137,27 @@ mod __verif_c41 {
         put(&mut buf, &mut n, b"\r\n");
         put(&mut buf, &mut n, &tail[..have]);
         let got = dechunk(&buf[..n]);
-        kani::cover!(have == d + 1);
+        kani::cover!(got.is_none());
         assert!(got.is_none(), "C41.truncated_chunk_rejected");
         std::mem::forget(got);
+    }
+
+    // @harness tiers=quick,thorough
+    // @encodes metastore::gravitino::dechunk
+    // @bounds declared size d in 1..=3 followed by FEWER than d + 2 bytes, every shortfall (all 9 (d, have) pairs iterated concretely, the bytes themselves symbolic): a body cut short anywhere inside the chunk or its CRLF
+    // @oracle truncated chunk data is rejected (None), never returned as a shorter body
+    #[kani::proof]
+    #[kani::unwind(8)]
+    fn truncated_chunk_is_rejected() {
+        truncated_case(1, 0);
+        truncated_case(1, 1);
+        truncated_case(1, 2);
+        truncated_case(2, 0);
+        truncated_case(2, 2);
+        truncated_case(2, 3);
+        truncated_case(3, 1);
+        truncated_case(3, 3);
+        truncated_case(3, 4);
     }
 
     // @harness tiers=quick,thorough finding=C41-missing-chunk-crlf-accepted
@@ -164,13 +182,7 @@ mod __verif_c41 {
         std::mem::forget(got);
     }
 
-    // @harness tiers=quick,thorough
-    // @encodes metastore::gravitino::dechunk
-    // @bounds size line = 16 symbolic hex digits (any usize, e.g. ffffffffffffffff), CRLF, then 0..=2 symbolic bytes
-    // @oracle no panic (no overflow in `size + 2`, no out-of-range slice); a declared size larger than what follows is rejected
-    #[kani::proof]
-    #[kani::unwind(20)]
-    fn huge_declared_size_does_not_panic() {
+    fn huge_case(k: usize) {
         let digits: [u8; 16] = kani::any();
         let mut buf = [0u8; W];
         let mut n = 0usize;
@@ -182,15 +194,25 @@ mod __verif_c41 {
             i += 1;
         }
         put(&mut buf, &mut n, b"\r\n");
-        let k: usize = kani::any();
-        kani::assume(k <= 2);
         let tail: [u8; 2] = kani::any();
         put(&mut buf, &mut n, &tail[..k]);
         kani::assume(digits[0] > 0); // size >= 2^60: certainly more than the 0..=2 bytes that follow
         let got = dechunk(&buf[..n]);
         kani::cover!(digits[0] == 15 && digits[15] == 15);
+        kani::cover!(digits[0] == 15 && digits[15] == 14);
         assert!(got.is_none(), "C41.oversized_chunk_rejected");
         std::mem::forget(got);
+    }
+
+    // @harness tiers=quick,thorough
+    // @encodes metastore::gravitino::dechunk
+    // @bounds size line = 16 symbolic hex digits (any size >= 2^60, e.g. ffffffffffffffff and fffffffffffffffe), CRLF, then 0 or 2 symbolic bytes
+    // @oracle no panic (no overflow in `size + 2`, no out-of-range slice); a declared size larger than what follows is rejected
+    #[kani::proof]
+    #[kani::unwind(20)]
+    fn huge_declared_size_does_not_panic() {
+        huge_case(0);
+        huge_case(2);
     }
 
     // @playback
